@@ -33,6 +33,7 @@ def run(ctx, chk):
     chk.rule("S2", "receive loop: same shape; descriptors kept only from the first chunk")
     chk.rule("S7", "the byte count returned by a receive primitive is never discarded by its caller")
     chk.rule("S8", "a receive that returns 0 bytes (end of stream) leaves every receive loop")
+    chk.rule("S9", "all tests of a message size against MAX_MSG_SIZE agree on the inclusive bound")
     chk.rule("S3", "header/body receivers classify 0 bytes / short / invalid correctly")
     chk.rule("S4", "errno -> error class table equals the reference")
     chk.rule("S5", "request bodies are read by a looping receiver; a short body is an error")
@@ -42,7 +43,12 @@ def run(ctx, chk):
     s4(fb, chk)
     s5(fb, chk)
     s6(fb, chk)
+    from vlint.report import Renamed as _Renamed
+    from . import c01 as _c01
+    chk.rule("S10", "descriptors are attached to the first byte only, also when a write is retried or partial (C01/W6)")
+    _c01.w6(fb, _Renamed(chk, {"W6": "S10"}))
     s7s8(fb, chk)
+    s9(fb, chk)
     n = lambda r: len([i for i in chk.instances if i[0] == r])
     chk.floor("S1", n("S1"), 7)
     chk.floor("S2", n("S2"), 4)
@@ -229,6 +235,41 @@ def s7s8(fb, chk):
                   % (f.short, c.get("name"), "can be re-entered" if found else "has no zero-byte test"), f.loc(t["line"]))
     chk.floor("S7", n7, 4)
     chk.floor("S8", n8, 2)
+
+
+def s9(fb, chk):
+    """Sibling agreement on the message-size bound: every test of a size against MAX_MSG_SIZE in the vhost-user modules
+    accepts `size <= MAX_MSG_SIZE` (the specification's inclusive 4096).  A strict test at one site rejects what the
+    other sites of the same transaction accepted (e.g. the reply pre-check refusing a request that was already sent)."""
+    n = 0
+    for f in fb.fns.values():
+        if f.crate != "vhost" or "vhost_user" not in (f.file or "") or f.rec.get("dk") == "Closure":
+            continue
+        if "::tests::" in f.key or "dummy" in (f.file or ""):
+            continue
+        m = None
+        seen = set()
+        for d, b in enumerate(f.blocks):
+            if b["cleanup"] or b["term"]["k"] != "switch":
+                continue
+            m = m or must_of(fb, f)
+            for sx in m.cfg.succ[d]:
+                for a in m.edge_atoms(d, sx):
+                    if a[0] != "cmp":
+                        continue
+                    for op, x, y in ((a[1], a[2], a[3]), ({"Lt": "Gt", "Gt": "Lt", "Le": "Ge", "Ge": "Le", "Eq": "Eq", "Ne": "Ne"}[a[1]], a[3], a[2])):
+                        if y[0] == "cname" and y[1].endswith("MAX_MSG_SIZE"):
+                            k = (d, show(x)[:60])
+                            if k in seen:
+                                continue
+                            seen.add(k)
+                            n += 1
+                            ok = op in ("Le", "Gt")
+                            chk.check(ok, "S9", "%s:%s" % (f.short, show(x)[:40]), "inclusive bound (<= MAX_MSG_SIZE accepted)",
+                                      "%s tests %s %s MAX_MSG_SIZE: every other site accepts sizes up to and including "
+                                      "MAX_MSG_SIZE, this one treats exactly MAX_MSG_SIZE differently (a message the peer or an "
+                                      "earlier step accepted is refused here)" % (f.short, show(x)[:50], op), f.loc(b["term"].get("line")))
+    chk.floor("S9", n, 12)
 
 
 def _is_count(t, call):
